@@ -256,6 +256,198 @@ def udf_fid_cross(cfg, rng, n=60):
     return ops, sizes
 
 
+def boot_hide_after_reopen(cfg, rng):
+    """El Torito boot file with names in every namespace; image reopened; then every file-system name of the boot
+    file is removed (a documented way to hide it); optionally rm_eltorito afterwards.  Returns (ops, sizes, reopen_points)"""
+    ops, sizes = [], {1: 2049, 2: 7}
+    op = {'k': 'add_fp', 'blob': 1, 'size': 2049, 'iso': '/BOOT.;1'}
+    if cfg.rr:
+        op['rr'] = 'boot'
+    if cfg.joliet:
+        op['jol'] = '/boot'
+    if cfg.udf:
+        op['udf'] = '/boot'
+    ops.append(op)
+    op2 = {'k': 'add_fp', 'blob': 2, 'size': 7, 'iso': '/OTHER.;1'}
+    if cfg.rr:
+        op2['rr'] = 'other'
+    ops.append(op2)
+    cat = {'k': 'add_eltorito', 'bootfile': '/BOOT.;1', 'catalog': '/BOOT.CAT;1'}
+    if cfg.rr:
+        cat['rr'] = 'boot.cat'
+    if cfg.joliet:
+        cat['jol'] = '/boot.cat'
+    if cfg.udf:
+        cat['udf'] = '/boot.cat'
+    ops.append(cat)
+    rp = [len(ops)]
+    names = [('iso', '/BOOT.;1')] + ([('jol', '/boot')] if cfg.joliet else []) + ([('udf', '/boot')] if cfg.udf else [])
+    rng.shuffle(names)
+    for ns, p in names:
+        ops.append({'k': 'rm_link', 'ns': ns, 'path': p})
+    if rng.random() < 0.5:
+        ops.append({'k': 'rm_eltorito'})
+    return ops, sizes, rp
+
+
+def same_name_links(cfg, rng):
+    """hard links that carry the SAME identifier in different directories (records compare equal field by field),
+    then removal of one of them; more edits afterwards that move data around"""
+    ops, sizes = [], {1: 5000, 2: 3, 3: 2048}
+    for d in ('/DOCS', '/BACKUP'):
+        op = {'k': 'add_dir', 'iso': d}
+        if cfg.rr:
+            op['rr'] = d.strip('/').lower()
+        if cfg.joliet:
+            op['jol'] = d.lower()
+        ops.append(op)
+    op = {'k': 'add_fp', 'blob': 1, 'size': 5000, 'iso': '/DOCS/README.TXT;1'}
+    if cfg.rr:
+        op['rr'] = 'readme.txt'
+    if cfg.joliet:
+        op['jol'] = '/docs/readme.txt'
+    ops.append(op)
+    which = rng.choice(['iso'] + (['jol'] if cfg.joliet else []))
+    if which == 'iso':
+        ln = {'k': 'add_link', 'src_ns': 'iso', 'src': '/DOCS/README.TXT;1', 'ns': 'iso', 'path': '/BACKUP/README.TXT;1'}
+        if cfg.rr:
+            ln['rr'] = 'readme.txt'
+        rm = {'k': 'rm_link', 'ns': 'iso', 'path': rng.choice(['/BACKUP/README.TXT;1', '/DOCS/README.TXT;1'])}
+    else:
+        ln = {'k': 'add_link', 'src_ns': 'jol', 'src': '/docs/readme.txt', 'ns': 'jol', 'path': '/backup/readme.txt'}
+        rm = {'k': 'rm_link', 'ns': 'jol', 'path': rng.choice(['/backup/readme.txt', '/docs/readme.txt'])}
+    ops.append(ln)
+    op = {'k': 'add_fp', 'blob': 2, 'size': 3, 'iso': '/AAA.;1'}
+    if cfg.rr:
+        op['rr'] = 'aaa'
+    ops.append(op)
+    ops.append(rm)
+    rp = [len(ops)] if rng.random() < 0.5 else []
+    op = {'k': 'add_fp', 'blob': 3, 'size': 2048, 'iso': '/AAB.;1'}
+    if cfg.rr:
+        op['rr'] = 'aab'
+    ops.append(op)
+    if rng.random() < 0.5:
+        ops.append({'k': 'rm_file', 'ns': 'iso', 'path': '/AAA.;1'})
+    return ops, sizes, rp
+
+
+def fat_dir_churn(cfg, rng):
+    """a directory spanning several blocks with mixed record lengths; then an add that lands in the SLACK of an early
+    block (so that nothing after that block moves) followed by removals of entries of later blocks, and more adds:
+    exercises the cached per-child positions and indices across insertions."""
+    if cfg.level == 1:
+        return None
+    ops, sizes = [], {}
+    d = '/FAT'
+    op = {'k': 'add_dir', 'iso': d}
+    if cfg.rr:
+        op['rr'] = 'fat'
+    ops.append(op)
+    lens = {}
+    for ln in (6, 14, 22, 28):
+        lens[ln] = _probe_dr_len(cfg, file_ident(cfg, 101, ln), 'f000')[0]
+    iso = cfg.new()
+    try:
+        kw = {'rr_name': 'sub'} if cfg.rr else {}
+        iso.add_directory(iso_path='/SUB', **kw)
+        sub = iso.get_record(iso_path='/SUB')
+        base = sub.children[0].dr_len + sub.children[1].dr_len
+    finally:
+        iso.close()
+    n = rng.randrange(60, 110)
+    entries = []          # (sort key number, name length)
+    for i in range(n):
+        entries.append((100 + 2 * i, rng.choice((6, 14, 22, 28, 28))))
+    # layout of the sorted directory (names sort by their number)
+    def layout(ents):
+        blocks, off, cur = [], base, []
+        for num, ln in sorted(ents):
+            x = lens[ln]
+            if off + x > LBS:
+                blocks.append((cur, LBS - off))
+                cur, off = [], 0
+            cur.append(num)
+            off += x
+        blocks.append((cur, LBS - off))
+        return blocks
+    for i, (num, ln) in enumerate(entries):
+        op = {'k': 'add_fp', 'blob': i + 1, 'size': 3, 'iso': d + '/' + file_ident(cfg, num, ln)}
+        if cfg.rr:
+            op['rr'] = 'f%03d' % i
+        sizes[i + 1] = 3
+        ops.append(op)
+    nb = n
+    live = dict(entries)
+    for _ in range(rng.randrange(2, 6)):
+        blocks = layout(live.items())
+        cands = [bi for bi, (nums, slack) in enumerate(blocks[:-1]) if slack >= lens[6] and len(nums) >= 2]
+        if cands and rng.random() < 0.8:
+            bi = rng.choice(cands)
+            nums = blocks[bi][0]
+            num = nums[rng.randrange(0, len(nums) - 1)] + 1          # odd: free, sorts inside this block
+            if num in live:
+                continue
+            nb += 1
+            live[num] = 6
+            op = {'k': 'add_fp', 'blob': nb, 'size': 3, 'iso': d + '/' + file_ident(cfg, num, 6)}
+            if cfg.rr:
+                op['rr'] = 'g%03d' % nb
+            sizes[nb] = 3
+            ops.append(op)
+            later = [x for (nums2, _) in blocks[bi + 1:] for x in nums2]
+        else:
+            later = [x for (nums2, _) in blocks[1:] for x in nums2]
+        if later:
+            num = rng.choice(later)
+            ops.append({'k': 'rm_file', 'ns': 'iso', 'path': d + '/' + file_ident(cfg, num, live[num])})
+            del live[num]
+    return ops, sizes
+
+
+LINK_RECIPES = {'boot_hide_after_reopen': boot_hide_after_reopen, 'same_name_links': same_name_links}
+
+
+def long_symlinks(cfg, rng, lo=None):
+    """Rock Ridge symlinks whose targets cross every SL record / component boundary: a first component of every
+    length around the room left in the directory record and in a 250-byte continuation piece, followed by more
+    components; '.'/'..'/'' pieces; targets of many short components"""
+    if not cfg.rr:
+        return None
+    ops = []
+    lo = rng.randrange(100, 125) if lo is None else lo
+    k = 0
+    for L in range(lo, lo + 40):
+        k += 1
+        ops.append({'k': 'add_symlink_rr', 'iso': '/' + file_ident(cfg, k, 8), 'rr': 's%d' % k, 'target': 'a' * L + '/b'})
+    for tgt in ('a' * 248 + '/b/c', 'a' * 249 + '/b', 'a' * 250 + '/b', 'a' * 251 + '/b', 'x' * 300 + '/' + 'y' * 270,
+                '/'.join(['ab'] * 40), '/'.join(['a'] * 90), '/abs/' + 'p' * 130 + '/q', '../up/' + 'u' * 128 + '/v',
+                './' + 'h' * 127 + '/i', 'a//b', 'trail/', '/'):
+        k += 1
+        ops.append({'k': 'add_symlink_rr', 'iso': '/' + file_ident(cfg, k, 8), 'rr': 's%d' % k, 'target': tgt})
+    return ops, {}
+
+
+def long_symlinks(cfg, rng, lo=None):
+    """Rock Ridge symlinks whose targets cross every SL record / component boundary: a first component of every
+    length around the room left in the directory record and in a 250-byte continuation piece, followed by more
+    components; '.'/'..'/'' pieces; targets of many short components"""
+    if not cfg.rr:
+        return None
+    ops = []
+    lo = rng.randrange(100, 125) if lo is None else lo
+    k = 0
+    for L in range(lo, lo + 40):
+        k += 1
+        ops.append({'k': 'add_symlink_rr', 'iso': '/' + file_ident(cfg, k, 8), 'rr': 's%d' % k, 'target': 'a' * L + '/b'})
+    for tgt in ('a' * 248 + '/b/c', 'a' * 249 + '/b', 'a' * 250 + '/b', 'a' * 251 + '/b', 'x' * 300 + '/' + 'y' * 270,
+                '/'.join(['ab'] * 40), '/'.join(['a'] * 90), '/abs/' + 'p' * 130 + '/q', '../up/' + 'u' * 128 + '/v',
+                './' + 'h' * 127 + '/i', 'a//b', 'trail/', '/'):
+        k += 1
+        ops.append({'k': 'add_symlink_rr', 'iso': '/' + file_ident(cfg, k, 8), 'rr': 's%d' % k, 'target': tgt})
+    return ops, {}
+
+
 RECIPES = {
     'exact_fill': lambda cfg, rng: exact_fill(cfg, rng, 0, True),
     'exact_fill_root': lambda cfg, rng: exact_fill(cfg, rng, 0, False),
@@ -267,7 +459,9 @@ RECIPES = {
     'ce_gap_exact': lambda cfg, rng: ce_gap(cfg, rng, 0),
     'ce_gap_minus': lambda cfg, rng: ce_gap(cfg, rng, -1),
     'big_records': lambda cfg, rng: big_records(cfg, rng),
+    'fat_dir_churn': lambda cfg, rng: fat_dir_churn(cfg, rng),
     'deep_tree': lambda cfg, rng: deep_tree(cfg, rng),
+    'long_symlinks': lambda cfg, rng: long_symlinks(cfg, rng),
     'udf_fid_cross': lambda cfg, rng: udf_fid_cross(cfg, rng),
 }
 
